@@ -16,7 +16,7 @@ use std::sync::Mutex;
 use std::time::Instant;
 
 pub const POOL_LIMIT: usize = 65535;
-pub const NKINDS: u64 = 28;
+pub const NKINDS: u64 = 29;
 
 struct B {
     ops: Vec<OpRec>,
@@ -319,6 +319,27 @@ pub fn scenario(seed: u64, idx: u64) -> Trace {
             b.push(Op::Delete { table: "Same".into(), cond: Some(Cond::Cmp("K".into(), CmpOp::Lt, Val::Int(10))) });
             b.push(Op::Update { table: "Same".into(), sets: vec![("B".into(), Val::Null)], cond: Some(Cond::Cmp("K".into(), CmpOp::Lt, Val::Int(100))) });
             b.push(Op::Observe);
+            match idx / NKINDS % 3 {
+                1 => {
+                    // twice as many references again: the count saturates, the number of *distinct* strings stays tiny
+                    b.push(Op::CreateTable {
+                        name: "Same2".into(),
+                        cols: vec![ColSpec::new("K", CType::I32).key(), ColSpec::new("A", CType::Str(0)), ColSpec::new("B", CType::Str(0)).nullable()],
+                    });
+                    let rows: Vec<Vec<Val>> = (0..33000).map(|i| vec![Val::Int(i), s.clone(), s.clone()]).collect();
+                    b.push(Op::Insert { table: "Same2".into(), rows });
+                    b.push(Op::Insert { table: "Same2".into(), rows: vec![vec![Val::Int(40000), s.clone(), Val::Str("Q79Qother".into())]] });
+                    b.push(Op::Observe);
+                }
+                2 => {
+                    // one statement that assigns more strings than the pool could hold if each were new
+                    let n = Val::Str("Q78Qnew".into());
+                    b.push(Op::Update { table: "Same".into(), sets: vec![("A".into(), n.clone()), ("B".into(), n)], cond: None });
+                    b.push(Op::Observe);
+                    b.push(Op::Delete { table: "Same".into(), cond: Some(Cond::Cmp("K".into(), CmpOp::Lt, Val::Int(20))) });
+                }
+                _ => {}
+            }
             b.restart(&mut rng);
             trace(seed, idx, created, b.ops, &mut rng)
         }
@@ -392,6 +413,22 @@ pub fn scenario(seed: u64, idx: u64) -> Trace {
             b.push(Op::Observe);
             b.push(Op::Insert { table: "P".into(), rows: vec![prow(1_000_300, new_str(500))] });
             b.restart(&mut rng);
+            trace(seed, idx, Init::Foreign(Box::new(spec)), b.ops, &mut rng)
+        }
+        // ---- read-only sessions on a package that sits exactly at a limit
+        28 => {
+            let spec = pool_image(POOL_LIMIT - (idx / NKINDS % 2) as usize, false, &mut rng);
+            let sel = || Op::Select { table: "P".into(), cols: vec!["K".into(), "S".into()], cond: Some(Cond::Cmp("K".into(), CmpOp::Le, Val::Int(5))) };
+            b.push(sel());
+            b.push(Op::Flush);
+            b.push(Op::Restart { mode: CloseMode::FlushDrop, edits: Vec::new() });
+            b.push(sel());
+            b.push(Op::Observe);
+            b.push(Op::Restart { mode: CloseMode::FlushCrash, edits: Vec::new() });
+            b.push(sel());
+            b.push(Op::Restart { mode: CloseMode::IntoInner, edits: Vec::new() });
+            b.push(Op::Observe);
+            b.push(Op::Restart { mode: CloseMode::Drop, edits: Vec::new() });
             trace(seed, idx, Init::Foreign(Box::new(spec)), b.ops, &mut rng)
         }
         // ---- a seeded ordinary history on top of a near-full pool
@@ -479,7 +516,7 @@ pub fn check(tier: &str, seed: u64) -> i32 {
     let mut extra = BTreeMap::new();
     extra.insert(
         "scenario_kinds".to_string(),
-        serde_json::json!("0-2 columns 31/32/33; 3-5 rows 65535/65536/65537 in one batch; 6-7 rows incrementally (with restarts); 8 rows after deletions; 9-16 string pool at L-1/L with two-byte references (insert, batch, delete-then-insert, update, create_table, restart in between); 17 three-byte references; 18-19 table/column name lengths; 20 stream name lengths; 21 string widths 254/255/256; 22 16-bit refcount saturation; 23 seeded history on a near-full pool; 24 full pool plus a string with a saturated refcount; 25 one row needing two entries when one is free; 26 _Validation at its own 65,536-row limit; 27 full pool, freed slots, existing strings re-used before new ones"),
+        serde_json::json!("0-2 columns 31/32/33; 3-5 rows 65535/65536/65537 in one batch; 6-7 rows incrementally (with restarts); 8 rows after deletions; 9-16 string pool at L-1/L with two-byte references (insert, batch, delete-then-insert, update, create_table, restart in between); 17 three-byte references; 18-19 table/column name lengths; 20 stream name lengths; 21 string widths 254/255/256; 22 16-bit refcount saturation; 23 seeded history on a near-full pool; 24 full pool plus a string with a saturated refcount; 25 one row needing two entries when one is free; 26 _Validation at its own 65,536-row limit; 27 full pool, freed slots, existing strings re-used before new ones; 28 read-only sessions on a full pool"),
     );
     extra.insert("scenarios_per_kind".to_string(), serde_json::json!(kinds.into_inner().unwrap().into_iter().map(|(k, v)| (k.to_string(), v)).collect::<BTreeMap<_, _>>()));
     let rep = CheckReport {
